@@ -30,6 +30,7 @@ Resolve(t, p) == ResolveFrom(t, At(t, p).ref, {p})
 DepOf(t, p) ==
     LET n == At(t, p)
     IN IF IsRefNode(n) THEN (IF Resolve(t, p)[1] = "ok" THEN {Resolve(t, p)[2]} ELSE {})
+       ELSE IF IsFStrName(n) THEN (IF HasPath(t, n.ref) THEN {n.ref} ELSE {})       \* (an f-string depends on the entry it formats)
        ELSE IF IsComposed(n) THEN {Append(p, n.ch[i][1]) : i \in 1..Len(n.ch)}
        ELSE {}
 RECURSIVE ReachFrom(_, _, _)
